@@ -3,6 +3,10 @@
 package stats
 
 import (
+	"github.com/aclements/go-moremath/vec"
+
+	"sync"
+
 	"math"
 
 	"github.com/aclements/go-moremath/internal/vx"
@@ -149,4 +153,57 @@ func VxC20_KDE() {
 	p2, c2 := kde.PDF(x), kde.CDF(x)
 	vx.Thaw()
 	vx.Assert(vx.Close(p1, p2, 0, 0) && vx.Close(c1, c2, 0, 0), "KDE.PDF/CDF are deterministic across intervening calls")
+}
+
+// VxC20_Vectorize: the function returned by vec.Vectorize (and vec.Map) keeps no state: a call
+// stores into no memory that existed before it, results of separate calls share no storage, and the
+// argument is left alone.
+// C20: "Calls made concurrently from several goroutines on shared read-only inputs return the same results as sequential calls and are free of data races."
+//
+//vx:mode R
+//vx:solver z3
+//vx:bound vectors of 1..3 values; f(x) = 2x+1
+func VxC20_Vectorize() {
+	f := func(x float64) float64 { return 2*x + 1 }
+	g := vec.Vectorize(f)
+	if !vx.Engine() {
+		// native confirmation: 8 goroutines call the same g on their own inputs
+		var wg sync.WaitGroup
+		bad := make([]bool, 8)
+		for k := 0; k < 8; k++ {
+			wg.Add(1)
+			go func(k int) {
+				defer wg.Done()
+				in := []float64{float64(k), float64(k) + 0.5, float64(k) * 3}
+				for r := 0; r < 20000 && !bad[k]; r++ {
+					out := g(in)
+					for i := range in {
+						if len(out) != len(in) || out[i] != 2*in[i]+1 {
+							bad[k] = true
+						}
+					}
+				}
+			}(k)
+		}
+		wg.Wait()
+		ok := true
+		for _, b := range bad {
+			ok = ok && !b
+		}
+		vx.Assert(ok, "a call of the vectorized function stores into no memory shared between calls (race-free)")
+	}
+	m := vx.Choose("m", 1, 3)
+	xs, ys := vx.Floats("x", m), vx.Floats("y", m)
+	vx.Freeze(xs, ys)
+	vx.Epoch()
+	r1 := g(xs)
+	shared := vx.NoSharedWrites()
+	keep := append([]float64(nil), r1...)
+	r2 := g(ys)
+	r3 := vec.Map(f, xs)
+	vx.Thaw()
+	for i := range xs {
+		vx.Assert(vx.Close(r1[i], keep[i], 0, 0) && r1[i] == 2*xs[i]+1 && r2[i] == 2*ys[i]+1 && r3[i] == r1[i], "results of separate calls share no storage and apply f elementwise")
+	}
+	vx.Assert(shared, "a call of the vectorized function stores into no memory shared between calls (race-free)")
 }
